@@ -80,7 +80,7 @@ func init() {
 	}
 }
 
-var c04Alpha = []string{"a", "'", "\"", "`", "\\", "-", "/", "*", ";", "#", "(", ")", " ", "\n", "\x00", "{", "$", "é", "\xff"}
+var c04Alpha = []string{"a", "'", "\"", "`", "\\", "-", "/", "*", ";", "#", "(", ")", " ", "\n", "\x00", "{", "$", "é", "\xff", "%", "s"}
 var c04QuoteAlpha = []string{"'", "\"", "\\", "a", "`"}
 var c04NumAlpha = []string{"0", "1", "9", ".", "e", "E", "x", "X", "a", "f", "+", "-"}
 
@@ -273,6 +273,23 @@ func c04Main(r *run.Runner) {
 			})
 		})
 	}
+	// long contents: a special character after n ordinary bytes, for every n up to 300 (buffer sizes, truncation)
+	type longCase struct {
+		pad  int
+		tail string
+	}
+	var longs []longCase
+	maxPad := 300
+	for n := 0; n <= maxPad; n++ {
+		for _, tail := range []string{"\"", "'", "\\", "\"x\"", "`", "%s", "é", "a"} {
+			longs = append(longs, longCase{n, tail})
+		}
+	}
+	r.Sweep("long-contents", int64(len(longs)), func(w *run.Worker, item int64) {
+		lc := longs[item]
+		doContent(w, strings.Repeat("a", lc.pad)+lc.tail)
+		doContent(w, lc.tail+strings.Repeat("b", lc.pad)+lc.tail)
+	})
 	// numbers
 	en := enum.Strings{Alpha: c04NumAlpha, MaxLen: 6, Split: 2}
 	if !r.Thorough() {
@@ -322,7 +339,7 @@ func c04Main(r *run.Runner) {
 	for _, sk := range c04Skeletons {
 		names = append(names, sk.name)
 	}
-	r.Extra["bounds"] = map[string]any{"skeletons": names, "content_alphabet": c04Alpha, "content_max_len": n, "quote_alphabet_max_len": nq, "number_max_len": en.MaxLen}
+	r.Extra["bounds"] = map[string]any{"skeletons": names, "content_alphabet": c04Alpha, "content_max_len": n, "quote_alphabet_max_len": nq, "number_max_len": en.MaxLen, "long_content_pad_up_to": 300}
 	r.Sample("T | render chart with (title='a\\';--', kind=stacked)")
 	r.Sample("T | project `x\"` = a, b")
 }
